@@ -78,6 +78,12 @@ func (prop) Generate(rng *core.Rand, tier string, emit func(string)) {
 		n = 60000
 	}
 	emit("cost all 200000 4")
+	// families on which every mode must stay linear (the unclosed-placeholder guard): '{'^n + tail
+	for _, mode := range []string{"all", "known", "orerr"} {
+		emit("costf " + mode + " 20000 4 " + core.Hex("{") + " " + core.Hex("\\}x"))
+		emit("costf " + mode + " 20000 4 " + core.Hex("{") + " " + core.Hex("a"))
+		emit("costf " + mode + " 20000 4 " + core.Hex("{a\\}") + " " + core.Hex("x"))
+	}
 	emit("cost orerr 200000 4")
 	for c := 0; c < n/4; c++ {
 		genHTTP(rng.Fork(), emit)
@@ -104,6 +110,13 @@ func (prop) Generate(rng *core.Rand, tier string, emit func(string)) {
 		if rng.Chance(1, 200) {
 			// many unclosed openers (the >100 guard)
 			inp = strings.Repeat("{", 95+rng.Intn(12)) + inp
+		}
+		if rng.Chance(1, 100) {
+			// the same guard reached through BOTH ways an opener can be found unclosed: no closer at
+			// all, or only escaped closers (the inner loop's `continue scan`)
+			unit := rng.Pick([]string{"{", "{", "{a", "{\\", "x{"})
+			tail := rng.Pick([]string{"", "}", "\\}", "\\}x", "\\}x}", "a", "\\}\\}x", "\\}{a}", "\\}x{", "\\} \\}"})
+			inp = strings.Repeat(unit, 96+rng.Intn(12)) + tail
 		}
 		var env []kv
 		seen := map[string]bool{}
@@ -211,7 +224,15 @@ func render(out string, err error) string {
 func (prop) Run(line string) core.Outcome {
 	f := strings.Fields(line)
 	if len(f) == 4 && f[0] == "cost" {
-		return runCost(line, f)
+		return runCost(line, f, "{", "}")
+	}
+	if len(f) == 6 && f[0] == "costf" {
+		unit, e1 := core.UnHex(f[4])
+		tail, e2 := core.UnHex(f[5])
+		if e1 != nil || e2 != nil || unit == "" {
+			return core.Outcome{Impl: "bad-op"}
+		}
+		return runCost(line, f, unit, tail)
 	}
 	if len(f) == 8 && f[0] == "http" {
 		return runHTTP(line, f)
@@ -314,26 +335,37 @@ func (prop) Run(line string) core.Outcome {
 }
 
 // cost <mode> <n> <mult>: time the witness family "{"^n + "}" at n and mult*n.
-func runCost(line string, f []string) core.Outcome {
+func runCost(line string, f []string, unit, tail string) core.Outcome {
 	n, _ := strconv.Atoi(f[2])
 	mult, _ := strconv.Atoi(f[3])
-	if n <= 0 || mult <= 1 || n*mult > 4000000 {
+	if n <= 0 || mult <= 1 || n*mult*len(unit) > 4000000 {
 		return core.Outcome{Impl: "bad-op"}
 	}
+	// one measurement = best of 3 runs; a run that does not finish within 2 s is abandoned (its
+	// goroutine is left to finish in the background) and reported as 2 s — far beyond linear here
 	measure := func(k int) time.Duration {
-		inp := strings.Repeat("{", k) + "}"
+		inp := strings.Repeat(unit, k) + tail
 		var ds []time.Duration
 		for r := 0; r < 3; r++ {
-			t0 := time.Now()
-			switch f[1] {
-			case "known":
-				call("known", inp, "", nil, nil)
-			case "all":
-				call("all", inp, "", nil, nil)
-			case "orerr":
-				call("orerr", inp, "01", nil, nil)
+			done := make(chan time.Duration, 1)
+			go func() {
+				t0 := time.Now()
+				switch f[1] {
+				case "known":
+					call("known", inp, "", nil, nil)
+				case "all":
+					call("all", inp, "", nil, nil)
+				case "orerr":
+					call("orerr", inp, "01", nil, nil)
+				}
+				done <- time.Since(t0)
+			}()
+			select {
+			case d := <-done:
+				ds = append(ds, d)
+			case <-time.After(2 * time.Second):
+				return 2 * time.Second
 			}
-			ds = append(ds, time.Since(t0))
 		}
 		sort.Slice(ds, func(i, j int) bool { return ds[i] < ds[j] })
 		return ds[0]
@@ -342,8 +374,12 @@ func runCost(line string, f []string) core.Outcome {
 	o := core.Outcome{Impl: "cost", Tags: []string{"cost:" + f[1]}}
 	// quadratic growth would give mult^2; linear gives mult. Flag only clear cases.
 	if t2 > 40*time.Millisecond && float64(t2) > float64(t1)*float64(mult)*2 {
-		o.Failures = append(o.Failures, core.Failure{Class: "superlinear-cost:" + f[1],
-			What: fmt.Sprintf("%s on '{'^n+'}' took %v for n=%d and %v for n=%d (x%d input, x%.1f time)",
+		cls := "superlinear-cost:" + f[1]
+		if f[0] == "costf" {
+			cls = "superlinear-cost-family:" + f[1]
+		}
+		o.Failures = append(o.Failures, core.Failure{Class: cls,
+			What: fmt.Sprintf("%s on "+strconv.Quote(unit)+"^n+"+strconv.Quote(tail)+" took %v for n=%d and %v for n=%d (x%d input, x%.1f time)",
 				f[1], t1, n, t2, n*mult, mult, float64(t2)/float64(t1))})
 	}
 	return o
